@@ -31,6 +31,8 @@ def actions(inner_prog):
         "lock-ctx": "K1.",
         "reregister-self": None,   # filled per kind
         "nested": "X1.%s." % hx(inner_prog),
+        # the handler re-enters on the evaluating context and writes the very variable the surrounding assignment is about to bind
+        "bump-target": "X1.%s." % hx("z = z + 1"),
     }
 
 # where the invoking expression E stands in the program: (program text, expected value given the handler's tag)
@@ -45,6 +47,8 @@ SITES = {
     "arg":        (lambda e: "ident(x, %s)" % e,         lambda t: t),
     "assign":     (lambda e: "w = %s; w" % e,            lambda t: t),
     "twice":      (lambda e: "%s == %s" % (e, e),        lambda t: "b(1)"),
+    "assign-target": (lambda e: "z = %s; z" % e,          lambda t: t),
+    "in-target-rhs": (lambda e: "z = [z, %s, z]; 1" % e,  lambda t: "n(0,1,0)"),
 }
 
 class P:
@@ -52,7 +56,7 @@ class P:
     rule = ("one fresh process per scenario, result awaited under an 8 s watchdog: every handler kind (global function, prefix, infix "
             "calc, infix setter, postfix operator, context function by call and by bare name) x every re-entrant action (parse, execute "
             "on the same / another context, register_function/prefix/infix/postfix, locking the evaluating context's public handle, "
-            "re-registering itself) x nesting depth 1..3 (a handler whose action executes a program that invokes the next handler); at "
+            "re-registering itself, writing the variable the surrounding assignment is about to bind) x nesting depth 1..3 (a handler whose action executes a program that invokes the next handler); at "
             "depth 1 also x ten sites of the invoking expression (alone, in a list of plain names, list, membership list, map value / key, "
             "conditional branch, call argument, assignment, twice in one expression), and with every handler's name also bound the other way round (context variables named like the registered function and operators, a global function named like the context function) - "
             "exhaustive; and two threads over one context while its context function holds the context's handle and re-enters on another context (2 x 4 x 7 scenarios, oracle only). Oracle: the outer evaluation completes (no DEADLOCK, no PANIC) with the handler's normal result and the "
@@ -67,7 +71,7 @@ class P:
             setup_k, prog = KINDS[kind]
             for depth in (1, 2, 3):
                 for aname, site in [(a_, s_) for a_ in ["parse", "execute-same-ctx", "execute-other-ctx", "register-function", "register-prefix",
-                                                        "register-infix", "register-postfix", "lock-ctx", "reregister-self"]
+                                                        "register-infix", "register-postfix", "lock-ctx", "reregister-self", "bump-target"]
                                     for s_ in SITES if s_ == "plain" or (depth == 1 and kind != "infix-setter")]:
                     # handler chain: h1 (kind under test) -> ... -> h_depth performs the action
                     ops = []
@@ -101,6 +105,7 @@ class P:
                                 o = ":".join(parts)
                             ops.append(o)
                     ops.append("CV:1:%s:n(0,1,0)" % hx("x"))
+                    ops.append("CV:1:%s:n(0,0,0)" % hx("z"))
                     ops.append("H:49:a1.")
                     ops.append("REGF:%s:49" % hx("ident"))
                     tail = ["EXEC:1:" + hx(SITES[site][0](prog)), "EXEC:1:" + hx("1 + 1"), "CD:1"]
